@@ -188,3 +188,216 @@ where
     exact this
 
 end Zboss.Codec
+
+namespace Zboss.Codec
+open Wire
+
+/-! ## failure responses cut short: the given parameters are a prefix of the schema and re-encode to the leading bytes -/
+
+/-- the wire fields of one Python parameter are contiguous: among the fields before any field `f`, those of
+    `f`'s parameter come last -/
+def contigOK (fs : List FView) : Bool :=
+  (List.range fs.length).all fun i =>
+    match fs[i]? with
+    | some f => ((fs.take i).dropWhile (·.param != f.param)).all (·.param == f.param)
+    | none => true
+
+theorem dropParam_all (pre : List FView) (acc : Assign) (p : Nat) (hl : acc.length = pre.length)
+    (h : pre.all (·.param == p) = true) : dropParam pre acc p = List.replicate pre.length none := by
+  induction pre generalizing acc with
+  | nil =>
+    have : acc = [] := List.eq_nil_of_length_eq_zero (by simpa using hl)
+    subst this; rfl
+  | cons g pre ih =>
+    cases acc with
+    | nil => simp at hl
+    | cons x acc =>
+      simp only [List.all_cons, Bool.and_eq_true, beq_iff_eq] at h
+      simp only [dropParam, List.zip_cons_cons, List.map_cons, h.1, if_true, List.length_cons, List.replicate_succ]
+      congr 1
+      exact ih acc (by simpa using hl) h.2
+
+theorem dropParam_split (pre : List FView) (acc : Assign) (p : Nat) (hl : acc.length = pre.length)
+    (hc : (pre.dropWhile (·.param != p)).all (·.param == p) = true) :
+    dropParam pre acc p = acc.take (pre.takeWhile (·.param != p)).length ++
+      List.replicate (pre.length - (pre.takeWhile (·.param != p)).length) none := by
+  induction pre generalizing acc with
+  | nil =>
+    have : acc = [] := List.eq_nil_of_length_eq_zero (by simpa using hl)
+    subst this; rfl
+  | cons g pre ih =>
+    cases acc with
+    | nil => simp at hl
+    | cons x acc =>
+      have hl' : acc.length = pre.length := by simpa using hl
+      by_cases hg : g.param = p
+      · -- the run of `p`-fields starts here: everything from here on is dropped
+        have htw : (g :: pre).takeWhile (·.param != p) = [] := by simp [List.takeWhile, hg]
+        have hdw : (g :: pre).dropWhile (·.param != p) = g :: pre := by simp [List.dropWhile, hg]
+        rw [hdw] at hc
+        rw [htw, dropParam_all (g :: pre) (x :: acc) p hl hc]
+        simp
+      · have hb : (g.param != p) = true := by simpa using hg
+        have htw : (g :: pre).takeWhile (·.param != p) = g :: pre.takeWhile (·.param != p) := by
+          simp [List.takeWhile, hb]
+        have hdw : (g :: pre).dropWhile (·.param != p) = pre.dropWhile (·.param != p) := by
+          simp [List.dropWhile, hb]
+        rw [hdw] at hc
+        rw [htw]
+        simp only [dropParam, List.zip_cons_cons, List.map_cons, hg, if_false, List.length_cons, List.take_succ_cons,
+          List.cons_append]
+        congr 1
+        have := ih acc hl' hc
+        simp only [dropParam] at this
+        rw [this]
+        congr 2
+        omega
+
+theorem finish_partial (v : View) (x a : Assign) (h : finish v (.partialCmd x) = .ok (.partialCmd a)) :
+    a = x ∧ allEnc v.fields x = true := by
+  simp only [finish] at h
+  split at h
+  · rename_i hm; injection h with h; injection h with h; exact ⟨h.symm, hm⟩
+  · cases h
+
+theorem finish_full_ne (v : View) (x a : Assign) (h : finish v (.full x) = .ok (.partialCmd a)) : False := by
+  simp only [finish] at h
+  split at h
+  · injection h with h; cases h
+  · cases h
+
+theorem allEnc_take (fs : List FView) (a : Assign) (j : Nat) (h : allEnc fs a = true) : allEnc (fs.take j) (a.take j) = true := by
+  induction fs generalizing a j with
+  | nil => simp [allEnc]
+  | cons f fs ih =>
+    cases a with
+    | nil => simp [allEnc]
+    | cons x a =>
+      cases j with
+      | zero => simp [allEnc]
+      | succ j =>
+        simp only [allEnc, List.zip_cons_cons, List.all_cons, Bool.and_eq_true, List.take_succ_cons] at h ⊢
+        exact ⟨h.1, ih a j h.2⟩
+
+theorem length_takeWhile_le' {α} (p : α → Bool) (l : List α) : (l.takeWhile p).length ≤ l.length := by
+  induction l with
+  | nil => simp
+  | cons x l ih =>
+    simp only [List.takeWhile]
+    split <;> simp <;> omega
+
+theorem contig_at (fs pre : List FView) (f : FView) (post : List FView) (h : contigOK fs = true) (hfs : fs = pre ++ f :: post) :
+    (pre.dropWhile (·.param != f.param)).all (·.param == f.param) = true := by
+  unfold contigOK at h
+  rw [List.all_eq_true] at h
+  have hi := h pre.length (by simp [hfs])
+  have hget : fs[pre.length]? = some f := by rw [hfs]; simp
+  have htake : fs.take pre.length = pre := by rw [hfs]; simp
+  simpa [hget, htake] using hi
+
+/-- prefix form of the loop invariant -/
+def PrefixInv (payload : Bytes) (done : List FView) (acc : Assign) : Prop :=
+  ∀ j, j ≤ done.length → allEnc (done.take j) (acc.take j) = true →
+    ∃ tail, encParams (done.take j) (acc.take j) ++ tail = payload
+
+theorem parse_partial_sound (v : View) (payload : Bytes) (hgp : GreedyPos v.fields) (hcont : contigOK v.fields = true)
+    (a : Assign) (rest done : List FView) (acc : Assign) (data : Bytes)
+    (hfs : done ++ rest = v.fields) (hlen : acc.length = done.length)
+    (hB : PrefixInv payload done acc)
+    (hA : allEnc done acc = true → encParams done acc ++ data = payload)
+    (h : parseLoop v done rest acc data = .ok (.partialCmd a)) : ∃ tail, encParams v.fields a ++ tail = payload := by
+  induction rest generalizing done acc data with
+  | nil =>
+    simp only [parseLoop] at h
+    split at h
+    · exact absurd h (fun h => finish_full_ne v _ a h)
+    · cases h
+  | cons f rest ih =>
+    rw [parseLoop] at h
+    cases hd : decW f.wt data with
+    | ok p =>
+      obtain ⟨val, data'⟩ := p
+      simp only [hd] at h
+      have hA' : allEnc (done ++ [f]) (acc ++ [some val]) = true →
+          encParams (done ++ [f]) (acc ++ [some val]) ++ data' = payload := by
+        intro hall
+        rw [allEnc_append done [f] acc [some val] hlen, Bool.and_eq_true] at hall
+        obtain ⟨h1, h2⟩ := hall
+        have hs : (encW f.wt val).isSome = true := by simpa [allEnc] using h2
+        obtain ⟨b, hb⟩ := Option.isSome_iff_exists.mp hs
+        have hmem : f ∈ v.fields := by rw [← hfs]; simp
+        have hsound := decW_sound f.wt data val data' b (fun ts hts => hgp f hmem ts hts) hd hb
+        rw [encParams_append done [f] acc [some val] hlen]
+        simp only [encParams, hb, Option.getD_some, List.append_nil]
+        rw [List.append_assoc, ← hsound]
+        exact hA h1
+      apply ih (done ++ [f]) (acc ++ [some val]) data' (by simpa using hfs) (by simp [hlen]) ?_ hA' h
+      intro j hj hall
+      rcases Nat.lt_or_ge j (done.length + 1) with hlt | hge
+      · have hj' : j ≤ done.length := by omega
+        rw [List.take_append_of_le_length hj', List.take_append_of_le_length (by omega)] at hall ⊢
+        exact hB j hj' hall
+      · have hj2 : j = (done ++ [f]).length := by simp at hj ⊢; omega
+        have t1 : (done ++ [f]).take j = done ++ [f] := by rw [hj2]; exact List.take_length
+        have t2 : (acc ++ [some val]).take j = acc ++ [some val] := by
+          rw [hj2]; apply List.take_of_length_le; simp [hlen]
+        rw [t1, t2] at hall ⊢
+        exact ⟨data', hA' hall⟩
+    | error e =>
+      simp only [hd] at h
+      cases e with
+      | keyError => cases h
+      | invalidFrame => exact partial_err v payload hcont a f rest done acc data hfs hlen hB h
+      | valueError => exact partial_err v payload hcont a f rest done acc data hfs hlen hB h
+where
+  partial_err (v : View) (payload : Bytes) (hcont : contigOK v.fields = true) (a : Assign) (f : FView) (rest done : List FView)
+      (acc : Assign) (data : Bytes) (hfs : done ++ f :: rest = v.fields) (hlen : acc.length = done.length)
+      (hB : PrefixInv payload done acc)
+      (h : (let pad : Assign := (f :: rest).map fun _ => none
+            let accDropped := dropParam done acc f.param
+            if ctype v = 1 then
+              match v.statusIdx with
+              | none => Except.error Err.keyError
+              | some si =>
+                if si < accDropped.length ∧ (accDropped.getD si none).isSome then
+                  if !isZeroStatus (accDropped.getD si none) then finish v (.partialCmd (accDropped ++ pad))
+                  else if data.isEmpty && f.optional then finish v (.full (accDropped ++ pad))
+                  else .error .valueError
+                else .error .keyError
+            else if data.isEmpty && f.optional then finish v (.full (accDropped ++ pad))
+            else .error .valueError) = .ok (.partialCmd a)) : ∃ tail, encParams v.fields a ++ tail = payload := by
+    simp only [] at h
+    have key : finish v (.partialCmd (dropParam done acc f.param ++ (f :: rest).map fun _ => none)) = .ok (.partialCmd a) := by
+      split at h
+      · split at h
+        · cases h
+        · split at h
+          · split at h
+            · exact h
+            · split at h
+              · exact absurd h (fun h => finish_full_ne v _ a h)
+              · cases h
+          · cases h
+      · split at h
+        · exact absurd h (fun h => finish_full_ne v _ a h)
+        · cases h
+    obtain ⟨ha, hall⟩ := finish_partial v _ a key
+    subst ha
+    have hc := contig_at v.fields done f rest hcont hfs.symm
+    generalize hj : (done.takeWhile (·.param != f.param)).length = j at *
+    have hjle : j ≤ done.length := by rw [← hj]; exact length_takeWhile_le' _ _
+    have hsplit := dropParam_split done acc f.param hlen hc
+    rw [hj] at hsplit
+    rw [hsplit] at hall ⊢
+    -- regroup: (take j done ++ drop j done ++ f :: rest) against (take j acc ++ nones ++ pad)
+    have hdone : done = done.take j ++ done.drop j := (List.take_append_drop j done).symm
+    have hfields : v.fields = done.take j ++ (done.drop j ++ f :: rest) := by
+      rw [← hfs, ← List.append_assoc, List.take_append_drop]
+    have hl1 : (acc.take j).length = (done.take j).length := by simp [hlen]
+    rw [hfields, List.append_assoc] at hall ⊢
+    rw [allEnc_append _ _ _ _ hl1, Bool.and_eq_true] at hall
+    rw [encParams_append _ _ _ _ hl1,
+      encParams_nones (done.drop j ++ f :: rest) _ (by simp), List.append_nil]
+    exact hB j hjle hall.1
+
+end Zboss.Codec
